@@ -31,7 +31,7 @@ pub mod fk {
         transient_err_read, transient_err_write, write_zero, stream_cut_in_frame, stream_cut_at_boundary,
         cancel_read, cancel_write, cancel_sync, sink_full, poison_frame, hostile_prefix,
         garbage_buffer, fatal_err_read, fatal_err_write, encode_fail, oversize_value, pipe_full, pipe_empty,
-        peer_close, max_len_knob, task_switch, flush_err, flush_pending, scribble_unfilled,
+        peer_close, max_len_knob, task_switch, flush_err, flush_pending, scribble_unfilled, vectored_io, late_cancel, flush_between_cancel_and_sync,
     );
 }
 
